@@ -32,6 +32,13 @@ def incomplete_bodies(ctx):
             src = b % {"v": val}
             docs.append(cxx.document([("tgt", tname, src)]))
             meta.append((tname, src, k == len(bodies) - 1))
+    # targets of every other type (a QVariant takes a value of any type -- but not NO value), and bodies that yield no value on ANY path
+    for tname, val in [("data", "a.data"), ("data", "a.i"), ("d", "a.d"), ("next", "a.next"), ("e", "a.e"), ("names", "a.names"), ("u", "a.u")]:
+        for b in bodies[:-1] + ["{ if (a.b) a.act(1); }", "{ a.act(1) }", "{ }", "{ if (a.b) { a.act(1) } else { a.act(2) } }", "{ switch (a.i) { case 0: a.act(1); break; default: a.act(2) } }",
+                                "a.act(1)"]:
+            src = b % {"v": val} if "%(v)s" in b else b
+            docs.append(cxx.document([("tgt", tname, src)]))
+            meta.append((tname, src, None))
     res = qml.run_docs(vh, docs)
     for (tname, src, complete), doc, r in zip(meta, docs, res):
         ctx.count(("incomplete-body", tname, src), True)
@@ -39,7 +46,12 @@ def incomplete_bodies(ctx):
             ctx.violation("pipeline gives no result on a block-bodied binding", {"qml": doc, "impl_output": str(r)[:500]})
             continue
         accepted = bool(r.get("header")) and not r["has_error"]
-        if accepted and not complete:
+        if accepted and complete is None:
+            ctx.violation("%s: %s has a reachable path without a value (or no value at all) and is accepted" % (tname, src),
+                          {"qml": doc, "impl_output": r.get("header"), "theorem_or_correspondence": "S: a value-returning body returns a value on every reachable path"})
+        elif complete is None:
+            pass
+        elif accepted and not complete:
             ctx.violation("%s: %s has a reachable path without a value and is accepted" % (tname, src),
                           {"qml": doc, "impl_output": r.get("header"), "theorem_or_correspondence": "S: a value-returning body returns a value on every reachable path"})
         elif complete and not accepted:
